@@ -54,6 +54,26 @@ PutStock(st, s) ==
 DelStock(st, n) == [st EXCEPT !.inv = SelectSeq(st.inv, LAMBDA x : x.name # n)]
 Max(a, b) == IF a >= b THEN a ELSE b
 
+(* Configuration = the SEQUENCE of options handed to NewModel:               *)
+(*   [kind |-> "stock", stocks |-> <<..>>]  WithInitialStock, or             *)
+(*                                          WithInventoryOption(records)     *)
+(*   [kind |-> "cons",  cons |-> <<names>>] WithInitialConsumable, or        *)
+(*                                          WithConsumablesOption(records)   *)
+(*   [kind |-> "clock"]                     a plain resource option (both    *)
+(*                                          collections)                     *)
+(* each of the first two possibly several times ("additive").  Whatever the  *)
+(* order and grouping: the stock given is the inventory, the consumables     *)
+(* given are the consumables.                                                *)
+RECURSIVE PutStocks(_, _)
+PutStocks(st, ss) == IF ss = <<>> THEN st ELSE PutStocks(PutStock(st, Head(ss)), Tail(ss))
+RECURSIVE ConfNames(_)
+ConfNames(opts) == IF opts = <<>> THEN {}
+                   ELSE ConfNames(Tail(opts)) \cup (IF Head(opts).kind = "cons" THEN { Head(opts).cons[k] : k \in 1..Len(Head(opts).cons) } ELSE {})
+RECURSIVE ConfInv(_)
+ConfInv(opts) == IF opts = <<>> THEN [inv |-> <<>>, cons |-> <<>>]
+                 ELSE PutStocks(ConfInv(Tail(opts)), IF Head(opts).kind = "stock" THEN Head(opts).stocks ELSE <<>>)
+ConfState(opts) == [inv |-> ConfInv(opts).inv, cons |-> SelectSeq(NameOrder, LAMBDA n : n \in ConfNames(opts))]
+
 (* DispenseInstantly(name, q): used += q and remaining = max(0, remaining *)
 (* - q), each converted to and kept in ITS OWN unit; a quantity that is   *)
 (* absent stays absent.  If q cannot be converted to one of the units the *)
